@@ -179,6 +179,26 @@ def spline_part(rep, rng, quick):
         info = {"t": C.hexf(t), "X": C.hexf(X), "n_segments": nseg, "degree": deg}
         if np.max(np.abs(a - b)) > 1e-9 * max(1.0, np.max(np.abs(X))):
             rep.violation(f"to_basis().to_grid() differs from P-spline smoothing with the same settings by {np.max(np.abs(a - b)):.3g}", info)
+        # irregular data in the per-curve encoding, with curves that start late / stop early / miss interior points:
+        # the expansion lives on the common domain, exactly as the P-spline smoother
+        if len(t) >= 10:
+            masks = np.ones((n, len(t)), bool)
+            masks[0, :3] = False
+            masks[1, -3:] = False
+            masks[2, [4, 5]] = False
+            irr = fd.irregular([t[masks[k]] for k in range(n)], [X[k][masks[k]] for k in range(n)])
+            try:
+                with warnings.catch_warnings():
+                    warnings.simplefilter("ignore")
+                    ai = np.asarray(irr.to_basis(penalty=2.0, **kw).to_grid().values, float)
+                    bi = np.asarray(irr.smooth(method="PS", penalty=2.0, **kw).values, float)
+                rep.case(("to_basis-irregular", X.tobytes(), nseg, deg), kind="to_basis=PS-smoothing/irregular")
+                if ai.shape != bi.shape or not np.all(np.isfinite(ai)) or np.max(np.abs(ai - bi)) > 1e-8 * max(1.0, np.max(np.abs(X))):
+                    rep.violation("irregular data (curves starting late / stopping early): to_basis().to_grid() differs from P-spline "
+                                  f"smoothing with the same settings by {np.max(np.abs(ai - bi)) if ai.shape == bi.shape else 'shape'}",
+                                  {**info, "mask": masks.astype(int).tolist()})
+            except Exception as e:  # noqa: BLE001
+                rep.violation(f"irregular to_basis / smooth(PS) raised {type(e).__name__}: {e}"[:300], {**info, "mask": masks.astype(int).tolist()})
         # curves in the spline space, zero penalty: curves and coefficients are returned exactly
         with warnings.catch_warnings():
             warnings.simplefilter("ignore")
